@@ -74,7 +74,19 @@ def run(prop, tier="quick", seed=0):
                     wit = mod.refute(uni, _Ob, os.path.join(VERIF, "replay", prop))
                 except Exception:      # noqa
                     wit = None
-            if wit:
+            fw = _undeclared_field_write(uni, key, con, str(e)) if not wit else None
+            if fw:
+                # the function now writes a field its contract neither declares nor allows: a frame obligation that
+                # needs no solver
+                ob = Obligation("frame/%s/write[%s]/field-outside-the-declared-frame" % (key, fw[1][:60]), [], None,
+                                kind="vc", func=key)
+                ob.status, ob.backend, ob.goal = "countermodel", "structural", "n/a"
+                ob.detail = ("the contract of %s declares modifies=%r, but the function writes through the undeclared field "
+                             ".%s at line %s: %s" % (key, con.get("modifies"), fw[0], fw[2], fw[1]))
+                ob.witness = None
+                obls.append(ob)
+                presolved.append(ob)
+            elif wit:
                 ob = Obligation(key + "/contract-not-applicable-to-changed-code", [], None, kind="vc", func=key)
                 ob.status, ob.backend, ob.detail, ob.goal = "unknown", "native-refuter", "out of subset: %s" % e, "n/a"
                 ob.witness = wit
@@ -256,10 +268,16 @@ def run(prop, tier="quick", seed=0):
         return 3
     if violations:
         os.makedirs(replay_dir, exist_ok=True)
-        for kind, item, wit in violations:
+        written = set()
+        for kind, item, wit in violations[:12]:
             name = item.name if kind != "bounded" else item.get("name", "bounded")
             fname = name.replace("/", "_").replace("[", "_").replace("]", "").replace("~", "_")[:120] + ".json"
             path = os.path.join(replay_dir, fname)
+            k = 1
+            while path in written:          # several failing inputs of one bounded obligation: one file each
+                k += 1
+                path = os.path.join(replay_dir, fname[:-5] + ".%d.json" % k)
+            written.add(path)
             rec = {"property": prop, "failed_obligation": name, "kind": kind}
             if kind == "obligation":
                 rec.update({"other_failing_paths": getattr(item, "other_paths", []),
@@ -275,12 +293,55 @@ def run(prop, tier="quick", seed=0):
                 json.dump(rec, f, indent=1, default=str)
             tail = "" if wit else " no-failing-input-found"
             print("VIOLATION property=%s replay=%s obligation=%s%s" % (prop, path, name, tail))
+        if len(violations) > 12:
+            print("(%d further failures not listed)" % (len(violations) - 12))
         return 1
     if undecided:
         for u in undecided:
             print("UNDECIDED: " + u)
         return 2
     return 0
+
+
+_MUTATORS = {"append", "extend", "insert", "add", "update", "pop", "remove", "clear", "setdefault", "popitem", "discard", "sort"}
+
+
+def _undeclared_field_write(uni, key, con, msg):
+    """(field, statement text, line) if `msg` complains about an undeclared field that the function writes through
+    while its contract has an explicit frame that does not mention it"""
+    import ast as _ast
+    import re as _re
+    m = _re.search(r"field (\w+)\.(\w+) not declared in sidecar", msg)
+    if not m or "modifies" not in con:
+        return None
+    field = m.group(2)
+    if any(("." + field) in t for t in con.get("modifies") or []):
+        return None
+    try:
+        fn = Exec(uni, key, con).fn
+    except Exception:      # noqa
+        return None
+
+    def through(e):
+        while isinstance(e, (_ast.Subscript, _ast.Attribute)):
+            if isinstance(e, _ast.Attribute) and e.attr == field:
+                return True
+            e = e.value
+        return False
+    for n in _ast.walk(fn):
+        tgts = []
+        if isinstance(n, _ast.Assign):
+            tgts = n.targets
+        elif isinstance(n, (_ast.AugAssign, _ast.AnnAssign)):
+            tgts = [n.target]
+        elif isinstance(n, _ast.Delete):
+            tgts = n.targets
+        elif isinstance(n, _ast.Call) and isinstance(n.func, _ast.Attribute) and n.func.attr in _MUTATORS and through(n.func.value):
+            return field, _ast.unparse(n), n.lineno
+        for t in tgts:
+            if through(t):
+                return field, _ast.unparse(n), n.lineno
+    return None
 
 
 def main(argv=None):
